@@ -106,6 +106,7 @@ class Q:
     construction (established by a branch or by a stated assumption when the Q was built)."""
     __slots__ = ("c", "nf", "df")
     __hash__ = None
+    _symx = True
 
     def __init__(self, n=None, d=None, c=Fraction(1), nf=None, df=None):
         if nf is not None:
